@@ -101,11 +101,53 @@ def progLoss : List HOp := [.fresh 10 [2, 1], .fresh 11 [10], .fresh 12 [11]]
 conversion is needed; all arithmetic after it is out-of-place -/
 def progClamp : List HOp := [.view 10 1, .fresh 11 [2, 10], .fresh 12 [11, 10], .fresh 13 [12]]
 
+/-- the variables the analysis knows to be bound to storages allocated by the program itself, after
+running it (same transfer function as `safeFrom`) -/
+def ownedAfter (owned : List Var) : List HOp → List Var
+  | [] => owned
+  | .view dst src :: rest =>
+    ownedAfter (if owned.contains src then dst :: owned else owned.filter (· != dst)) rest
+  | .fresh dst _ :: rest => ownedAfter (dst :: owned) rest
+  | .inplace _ _ :: rest => ownedAfter owned rest
+
+/-- the result variable `v` of program `p` is known to be a storage of its own: it cannot alias any
+tensor that existed before the call (market data, caller tensors) -/
+def resultFresh (p : List HOp) (v : Var) : Bool := (ownedAfter [] p).contains v
+
+/-- `FeatureList.get`: `torch.cat([f.get(time_step) for f in features], -1)` — the feature outputs
+may be views of buffers, the concatenation is a new storage -/
+def progGetInput : List HOp := [.view 10 0, .view 11 1, .fresh 12 [10, 11]]
+
+/-- `compute_hedge` (batched) with a user model that RETURNS ITS INPUT (`torch.nn.Identity`): the
+in-place `output[..., -1, :] = output[..., -2, :]` then lands in the `cat` storage -/
+def progHedgeBatchedIdentity : List HOp :=
+  [.view 10 0, .fresh 11 [10], .view 12 11, .view 14 12, .inplace 12 [14], .view 15 12]
+
+/-- `compute_hedge` (batched) with a user model that writes its input in place (`ReLU(inplace=True)`
+as first layer) -/
+def progHedgeBatchedInplaceModel : List HOp :=
+  [.view 10 0, .fresh 11 [10], .inplace 11 [], .view 12 11, .view 14 12, .inplace 12 [14], .view 15 12]
+
+/-- the same computation if `FeatureList.get` skipped the concatenation for a single feature (a
+rewrite that looks harmless at that site): the model input is then a view of the buffer -/
+def progHedgeShortcutIdentity : List HOp :=
+  [.view 10 0, .view 11 10, .view 12 11, .view 14 12, .inplace 12 [14], .view 15 12]
+
 /-- all modelled public computations, for the `decide` sweep -/
 def publicPrograms : List (String × List HOp) :=
   [("log_spot", progLogSpot), ("spot_at", progSpotAt), ("moneyness", progMoneyness), ("barrier", progBarrier),
    ("variance", progVariance), ("pl", progPl), ("hedge_batched", progHedgeBatched), ("hedge_step", progHedgeStep),
-   ("payoff", progPayoff), ("loss", progLoss), ("clamp", progClamp)]
+   ("payoff", progPayoff), ("loss", progLoss), ("clamp", progClamp), ("get_input", progGetInput),
+   ("hedge_batched_identity", progHedgeBatchedIdentity), ("hedge_batched_inplace_model", progHedgeBatchedInplaceModel)]
+
+/-- the modelled public computations with their result variable: which results may alias market
+data (`resultFresh = false`) and which may not -/
+def publicResults : List (String × List HOp × Var) :=
+  [("feature_view", progVariance, 11), ("log_spot", progLogSpot, 12), ("spot_at", progSpotAt, 12),
+   ("moneyness", progMoneyness, 13), ("barrier", progBarrier, 13), ("get_input", progGetInput, 12),
+   ("hedge_batched", progHedgeBatched, 15), ("hedge_batched_identity", progHedgeBatchedIdentity, 15),
+   ("hedge_batched_inplace_model", progHedgeBatchedInplaceModel, 15), ("hedge_step", progHedgeStep, 17),
+   ("payoff", progPayoff, 13), ("pl", progPl, 13), ("loss", progLoss, 12), ("clamp", progClamp, 13)]
 
 /-! ### the hedger's recurrent state across calls -/
 
